@@ -29,6 +29,10 @@ from .gaussian_process_train import (
 from .optimize_result import OptimizeResult
 from .options import Options
 
+# Verification hook (off unless PYBADS_VERIF=1 and a probe is installed).
+_VERIF_ON = os.environ.get("PYBADS_VERIF") == "1"
+_verif_probe = None
+
 
 class BADS:
     """
@@ -1421,9 +1425,29 @@ class BADS:
                     poll_iteration += 1
                     self.optim_state["iter"] = poll_iteration
 
+            if _VERIF_ON and _verif_probe is not None:
+                _verif_probe(
+                    "loop_end",
+                    self,
+                    dict(
+                        loop_iter=loop_iter,
+                        poll_iteration=poll_iteration,
+                        do_poll_step=do_poll_step,
+                        do_search_step=do_search_step_flag,
+                        is_finished=is_finished,
+                        msg=msg,
+                    ),
+                )
+
             loop_iter += 1
 
         # End while
+        if _VERIF_ON and _verif_probe is not None:
+            _verif_probe(
+                "loop_exit",
+                self,
+                dict(loop_iter=loop_iter, poll_iteration=poll_iteration),
+            )
 
         # Re-evaluate all best points for noisy evaluations
         yval_vec = self.yval if np.isscalar(self.yval) else self.yval.copy()
